@@ -5,7 +5,7 @@ from ..driver import Prop
 class C19(Prop):
     id = 'C19'
     design_ref = 'DESIGN.md section 4 / C19'
-    budgets = {'quick': 12000, 'thorough': 300000}
+    budgets = {'quick': 50000, 'thorough': 1000000}
 
     def gen(self, rng, index, tier):
         return schedsim.gen_sensor(rng)
